@@ -1,5 +1,5 @@
 (* C14 (codec half) — property theorems.  Only statements, [exact lemma] and Print Assumptions. *)
-From Coq Require Import ZArith List.
+From Coq Require Import ZArith List Sorting.Sorted.
 From FV Require Import Lib.RustInt C14.SbsModel C14.SbsProofs C14.SbsSpec C14.SbsRoundtrip.
 Import ListNotations.
 Open Scope Z_scope.
@@ -27,16 +27,34 @@ Theorem sbs_decode_matches_spec : forall data bias maxv,
   end.
 Proof. exact decode_matches_spec. Qed.
 
-(* Round trip, proved for every subset of [0,12) (characteristic mask m), every branch factor and the
-   automatic choice; the general statement is in SbsRoundtrip.v and is tested, not proved. *)
-Theorem sbs_roundtrip_partial : forall m bf, 0 <= m < 4096 -> In bf [2; 4; 8; 32] ->
+(* Round trip, for EVERY set of u32 values (strictly ascending list) and every branch factor:
+   the per-branch-factor encoder does not panic and the decoder returns exactly the set, with nothing
+   left unread.  (BF 2 cannot reach values >= 2^31 and is upgraded to BF 4 by the encoder.) *)
+Theorem sbs_roundtrip : forall bf S, bf_valid bf = true ->
+  StronglySorted Z.lt S -> Forall (fun v => 0 <= v < U32) S ->
+  exists bytes rs, encode_bf bf S = Some bytes /\ decode bytes 0 (U32 - 1) = Ok rs [] /\
+                   forall x, in_ranges x rs = zmem x S.
+Proof. exact roundtrip. Qed.
+
+(* the same for to_sparse_bit_set (shortest of the admissible encodings) *)
+Theorem sbs_roundtrip_auto : forall S,
+  StronglySorted Z.lt S -> Forall (fun v => 0 <= v < U32) S ->
+  exists bytes rs, encode_auto S = Some bytes /\ decode bytes 0 (U32 - 1) = Ok rs [] /\
+                   forall x, in_ranges x rs = zmem x S.
+Proof. exact roundtrip_auto. Qed.
+
+(* Independent cross-check by complete enumeration (all subsets of [0,12), all branch factors and the
+   automatic choice); superseded by the two general theorems above, kept as an evaluation of the model. *)
+Theorem sbs_roundtrip_enumerated : forall m bf, 0 <= m < 4096 -> In bf [2; 4; 8; 32] ->
   rt_ok bf (subset_of_mask m) = true.
 Proof. exact roundtrip_small. Qed.
 
-Theorem sbs_roundtrip_auto_partial : forall m, 0 <= m < 4096 -> rt_ok 0 (subset_of_mask m) = true.
+Theorem sbs_roundtrip_auto_enumerated : forall m, 0 <= m < 4096 -> rt_ok 0 (subset_of_mask m) = true.
 Proof. exact roundtrip_small_auto. Qed.
 
 Print Assumptions sbs_decode_total.
 Print Assumptions sbs_decode_matches_spec.
-Print Assumptions sbs_roundtrip_partial.
-Print Assumptions sbs_roundtrip_auto_partial.
+Print Assumptions sbs_roundtrip.
+Print Assumptions sbs_roundtrip_auto.
+Print Assumptions sbs_roundtrip_enumerated.
+Print Assumptions sbs_roundtrip_auto_enumerated.
